@@ -1167,6 +1167,52 @@ func runC08(c *mon.Ctx) {
 			// without a lookup list the reader returns an empty table by design
 			c08walkJudge(k, "features", o.rep)
 			k.Class("features:no-lookup-list")
+			// The same encoded feature list behind a lookup list (header, script
+			// list, lookup list, feature list - the parts are self-contained, only
+			// the three header offsets change): every 16-bit offset is valid although
+			// the feature list ends beyond 64 KiB, so the table must read back intact.
+			if len(o.enc) >= 10 && o.enc[8] == 0 && o.enc[9] == 0 {
+				so := int(o.enc[4])<<8 | int(o.enc[5])
+				fo := int(o.enc[6])<<8 | int(o.enc[7])
+				if so == 10 && fo > so && fo <= len(o.enc) {
+					ll := gtab.LookupList{}
+					for j := 0; j < 3; j++ {
+						ll = append(ll, &gtab.LookupTable{Meta: &gtab.LookupMetaInfo{LookupType: 1},
+							Subtables: []gtab.Subtable{&gtab.Gsub1_1{Cov: coverage.Set{glyph.ID(5 + j): true}, Delta: glyph.ID(1 + j)}}})
+					}
+					var llEnc []byte
+					if pv, _ := mon.Try(func() { llEnc = (&gtab.Info{ScriptList: gtab.ScriptListInfo{}, LookupList: ll}).Encode() }); pv == nil && len(llEnc) > 10 {
+						lo2 := int(llEnc[8])<<8 | int(llEnc[9])
+						if lo2 >= 10 && lo2 < len(llEnc) {
+							sl, flb, llb := o.enc[so:fo], o.enc[fo:], llEnc[lo2:]
+							nlo := 10 + len(sl)
+							nfo := nlo + len(llb)
+							re := []byte{0, 1, 0, 0, 0, 10, byte(nfo >> 8), byte(nfo), byte(nlo >> 8), byte(nlo)}
+							re = append(append(append(re, sl...), llb...), flb...)
+							var back *gtab.Info
+							var rerr error
+							pv, stack := mon.Try(func() { back, rerr = gtab.Read(bytes.NewReader(re), gtab.Type(otl.GSUB)) })
+							k.Eval()
+							want := &gtab.Info{ScriptList: gtab.ScriptListInfo{}, FeatureList: fl, LookupList: ll}
+							switch {
+							case pv != nil:
+								k.Fail("panic", "c08:features:lists-reordered:read-panic", "%v\n%s", pv, stack)
+							case rerr != nil:
+								k.Fail("mismatch", "c08:features:lists-reordered:read-error", "header + script list + lookup list + the encoded feature list (%d features, last one at offset %d, list of %d bytes): gtab.Read: %v", n, 0xFFFE-d, len(flb), rerr)
+							default:
+								if df := c08diff(want, back); df != "" {
+									k.Fail("mismatch", "c08:features:lists-reordered:roundtrip", "%s", df)
+								}
+							}
+							if len(flb) > 0xFFFF {
+								k.Class("features:list-ends-beyond-64k-read-back")
+							} else {
+								k.Class("features:lists-reordered-read-back")
+							}
+						}
+					}
+				}
+			}
 		}
 		k.Max("feature-list-last-offset", float64(0xFFFE-d))
 	})
